@@ -104,6 +104,11 @@ CHECKS["C16"] = dict(
     text="Exhaustive over all event sequences of <= 8 (quick) / 10 (thorough) events over {roll-up command, paint-on command, carriage return, row text} for the design model, and over a replay grid depth 2-4 x base row x 1-4 rows x single/doubled x drop/non-drop x repeated mode command, paint-on on adjacent and non-adjacent rows; random streams of 1-8 rows with specials, extended characters, backspaces, mid-row codes and mode switches beyond.",
     design="4 C16")
 
+CHECKS["C17"] = dict(
+    technique="TLA+ spec SccWriter.tla on the reference decoder Scc608.tla: TLC checks the schedule design model (pre-roll, clear-screen suppression) against the timing requirement (MC_SccWriter) and judges SCCWriter's actual output - scanned into lines, bytes and decoder symbols by the harness's own SCC scanner and decoded by the TLA+ reference decoder - plus SCCReader's re-reading (Trace_SccWriter)",
+    text="Exhaustive over 1-3 captions x loads {5,20,60} x slacks for the schedule design model, and over a replay grid 1-3 captions x line lengths {1,31,32,33,64,80} x word shapes (short, 32- and 40-character words, hyphenated) x spacing {just feasible, +1 frame, sparse} x first start {just feasible, late}; random texts over the basic character table (1-4 lines of 1-80 characters, words up to 40) beyond. Header, line syntax, odd parity of every byte, rows 1-15, rows of at most 32 columns broken only at spaces, no overlapping lines, End-Of-Caption within three frames of the start and identical words on re-reading are decided by TLC.",
+    design="4 C17")
+
 NOT_YET = {}
 
 
